@@ -59,6 +59,15 @@ def run(ctx):
     for s in iscn:
         if s["kind"].startswith("escalate") or any(e["hidden"] for e in s["events"]):
             ctx.nontriv("dlg%d" % s["id"])
+    # platform definitions whose on-open / on-close steps write a redacted value (a string, and an all-digit one)
+    logtrace3 = os.path.join(ctx.tmp, "c11log3.ndjson")
+    res = ctx.run_harness("c11plat", [], args=["-logtrace", logtrace3], timeout=600)
+    for rr in res:
+        ctx.count()
+        ctx.nontriv("plat/" + rr["variant"])
+        if not rr["ok"]:
+            ctx.violation(rr["sig"], rr["detail"], {"kind": "platform", "variant": rr["variant"]})
+    lines += open(logtrace3).read().splitlines()
     ctx.notes["log_messages"] = sum(1 for x in lines if '"ev":"log"' in x)
     if lines:
         ctx.sample({"trace_prefix": [json.loads(x) for x in lines[:4]]})
